@@ -92,6 +92,7 @@ type interpreter struct {
 	eng                *Engine
 	lenient            bool // executing a package initialiser leniently
 	nativeMemo         map[nativeKey]*value
+	anonByPos  map[string]*ssa.Function
 	importing          bool
 	registry           map[*value]bool // cells of natively imported shared definitions
 	typeMemo           map[reflect.Type]types.Type
